@@ -2787,7 +2787,7 @@ class MultiplexedGate(Gate):
         """
         Create a copy of the gate.
         """
-        gate = MultiplexedGate(copy(self.tgates), self.ncontrols)
+        gate = MultiplexedGate([copy(g) for g in self.tgates], self.ncontrols)
         gate.set_control(self.control_qubits)
         return gate
 
